@@ -2001,8 +2001,38 @@ def c16(ctx):
     with open(f3, "w") as f:
         for _ in range(600 if q else 100000):
             f.write(json.dumps(rand_http_program(rng)) + "\n")
+    # stop() at every boundary between two handler executions of two base scenarios (a keep-alive client with pipelined
+    # and cut requests followed by a second client; a client that sends 'Connection: close')
+    f4 = ctx.path("hs_stop.ndjson")
+    bases = [
+        {"keepalive": True, "clients": [
+            {"id": 1, "connect_at": 10, "reqs": [http_req(rng, "ok", False), http_req(rng, "range", False), http_req(rng, "unknown", False)],
+             "cuts": [[40, 0], [3, 90000], [200, 0]], "close_after": True, "close_delay": 1500000},
+            {"id": 2, "connect_at": 1400000, "reqs": [http_req(rng, "content", False), http_req(rng, "ok", True)], "cuts": [[17, 50000]],
+             "close_after": True, "close_delay": 1000}]},
+        {"keepalive": False, "clients": [
+            {"id": 1, "connect_at": 10, "reqs": [http_req(rng, "redirect", True)], "cuts": [[5, 200000]], "close_after": False},
+            {"id": 2, "connect_at": 900000, "reqs": [http_req(rng, "ok", False)], "cuts": [], "close_after": True, "close_delay": 1000}]}]
+    for b in bases:
+        for c in b["clients"]:
+            for r in c["reqs"]:
+                r.pop("malformed", None)
+    fb = ctx.path("hs_stop_base.ndjson")
+    with open(fb, "w") as f:
+        for b in bases:
+            f.write(json.dumps(b) + "\n")
+    resb, _ = vlib.replay(ctx, "record-http", fb, nproc=1)
+    with open(f4, "w") as f:
+        for b, r in zip(bases, resb):
+            K = r.get("boundaries", 0)
+            if not r.get("ok") or K < 10:
+                raise Machinery("http stop() base scenario did not run: %s" % r)
+            for k in range(1, K + 1):
+                p = dict(b)
+                p["stop_k"] = k
+                f.write(json.dumps(p) + "\n")
     ctx.exhaustive = True
-    for f in (f1, f2, f3):
+    for f in (f1, f2, f3, f4):
         res, total, chunks = vlib.replay(ctx, "record-http", f, keep=True, env={"VH_WALL_LIMIT": "900"})
         bad = [r for r in res if not r.get("ok")]
         cases = vlib.read_lines(f, [r["i"] for r in bad[:50]])
@@ -2103,8 +2133,31 @@ def c18(ctx):
     with open(f3, "w") as f:
         for _ in range(500 if q else 80000):
             f.write(json.dumps(rand_proxy_program(rng)) + "\n")
+    # stop() at every boundary between two handler executions of two base programs with successive clients
+    r4 = random.Random(4)
+    bases = []
+    while len(bases) < 2:
+        b = rand_proxy_program(r4)
+        b.pop("stop_at", None)
+        if len(b["clients"]) >= 2 and not any(bb["clients"][0]["reqs"][0].get("host") == b["clients"][0]["reqs"][0].get("host") for bb in bases):
+            bases.append(b)
+    fb = ctx.path("px_stop_base.ndjson")
+    with open(fb, "w") as f:
+        for b in bases:
+            f.write(json.dumps(b) + "\n")
+    resb, _ = vlib.replay(ctx, "record-proxy", fb, nproc=1)
+    f4 = ctx.path("px_stop.ndjson")
+    with open(f4, "w") as f:
+        for b, r in zip(bases, resb):
+            K = r.get("boundaries", 0)
+            if not r.get("ok") or K < 10:
+                raise Machinery("proxy stop() base program did not run: %s" % r)
+            for k in range(1, K + 1):
+                p = dict(b)
+                p["stop_k"] = k
+                f.write(json.dumps(p) + "\n")
     ctx.exhaustive = True
-    for f in (f2, f3):
+    for f in (f2, f3, f4):
         res, total, chunks = vlib.replay(ctx, "record-proxy", f, keep=True, env={"VH_WALL_LIMIT": "900"})
         bad = [r for r in res if not r.get("ok")]
         cases = vlib.read_lines(f, [r["i"] for r in bad[:50]])
